@@ -1,6 +1,7 @@
 package hx
 
 import (
+	"math"
 	"context"
 	"crypto/sha1"
 	"encoding/hex"
@@ -348,12 +349,16 @@ func (m *monitor) BeginCycle(ctx context.Context, n uint64) {
 	m.tr.Cycles = append(m.tr.Cycles, c)
 	m.seenInCycle = map[string]bool{}
 	m.probeMark = m.totalProbes()
-	if uint64(len(m.tr.Cycles)) > m.opts.MaxCycle+3 {
+	horizon := m.opts.MaxCycle + 3
+	if horizon < m.opts.MaxCycle {
+		horizon = math.MaxUint64 - 3 // a budget at the end of the range: no horizon fits beyond it
+	}
+	if uint64(len(m.tr.Cycles)) > horizon {
 		m.tr.Horizon = true
 		if m.cancel != nil {
 			m.cancel()
 		}
-		if uint64(len(m.tr.Cycles)) > m.opts.MaxCycle+6 {
+		if uint64(len(m.tr.Cycles)) > horizon+3 {
 			panic("hx: horizon exceeded, engine ignores cancellation")
 		}
 	}
